@@ -178,12 +178,18 @@ class NumpyBackendProvider(BackendProvider):
             arg_src = self._ir_to_source(arg)
             if arg_src is None:
                 return None
-            method = {'+': 'np.add.reduce', '*': 'np.multiply.reduce', '|': 'np.maximum.reduce', '&': 'np.minimum.reduce'}.get(op)
-            if method is None:
+            method = {'+': 'np.add.reduce', '*': 'np.multiply.reduce'}.get(op)
+            if method is not None:
+                # initial=None: no identity element, so an empty operand raises and the
+                # interpreter answers (+/[] is [], not 0.0).
+                return f'{method}({arg_src}, initial=None)'
+            # Max-Over / Min-Over of a nested list (object array) fold the atomic verb
+            # (1&[2] is [1]); the ufunc's object loop compares whole elements instead.
+            # _kg_numeric raises for an object array and the interpreter answers.
+            guarded = {'|': 'np.maximum.reduce', '&': 'np.minimum.reduce'}.get(op)
+            if guarded is None:
                 return None
-            # initial=None: no identity element, so an empty operand raises and the
-            # interpreter answers (+/[] is [], not 0.0).
-            return f'{method}({arg_src}, initial=None)'
+            return f'{guarded}(_kg_numeric({arg_src}), initial=None)'
 
         if node_type == 'scan':
             op, arg = ir[1], ir[2]
